@@ -32,6 +32,16 @@ NON_CONSUMING = {'next', 'anext', 'iter', 'aiter', 'mit.first', 'mit.spy', 'mit.
                  'logging.info', 'logging.debug', 'logging.warning', 'logging.error', 'callable'}
 
 
+def _conditional(node: ast.AST, pm: dict, fn: ast.AST) -> bool:
+  """True when `node` only executes on some paths (it sits in an arm of an if / try / match below `fn`)."""
+  q = pm.get(node)
+  while q is not None and q is not fn:
+    if isinstance(q, (ast.If, ast.Try, ast.Match, ast.IfExp)):
+      return True
+    q = pm.get(q)
+  return False
+
+
 def _has_yield(fn: ast.AST) -> bool:
   stack = list(ast.iter_child_nodes(fn))
   while stack:
@@ -159,7 +169,7 @@ class OnePass:
             v.args and isinstance(v.args[0], ast.Name) and v.args[0].id == t):
           materialised_at[t] = min(materialised_at.get(t, 10**9), x.lineno)
         if t in sources and isinstance(v, ast.Call) and unparse(v.func) in MATERIALISE and v.args and (
-            isinstance(v.args[0], ast.Name) and v.args[0].id == t) and not loops_of(x):
+            isinstance(v.args[0], ast.Name) and v.args[0].id == t) and not loops_of(x) and not _conditional(x, pm, fn):
           materialised_at[t] = min(materialised_at.get(t, 10**9), x.lineno)
     # consumption sites
     sites: dict[str, list[ast.AST]] = {}
